@@ -297,6 +297,11 @@ def make_move(V, kind, labels, n, check=None, step=0.3):
         return chk(ExchangeMove(labels.copy(), Translation()), "e") * 2
     if kind == "e+e":
         return chk(ExchangeMove(labels.copy(), Translation()), "ea") + chk(ExchangeMove(labels.copy(), Translation()), "eb")
+    if kind == "swap":
+        # a generic composite whose two exchange moves go opposite ways: one deletion and one insertion per trial
+        from quansino.moves.composite import CompositeMove
+
+        return CompositeMove([chk(ExchangeMove(labels.copy(), Translation(), bias_towards_insert=0.0), "ea"), chk(ExchangeMove(labels.copy(), Translation(), bias_towards_insert=1.0), "eb")])
     if kind == "e+d":
         return chk(ExchangeMove(labels.copy(), Translation()), "e") + chk(DisplacementMove(labels.copy(), Box(step)), "d")
     if kind == "h":
